@@ -42,9 +42,61 @@ theorem clusterHash_eq_spec (k : Bytes) : clusterHash k = hashSlotSpec k := by
 theorem keyToSlot_eq_clusterHash (k : Bytes) : keyToSlot k = clusterHash k := by
   rw [keyToSlot_eq_spec, clusterHash_eq_spec]
 
-/-- every slot is in range -/
-theorem hashSlotSpec_lt (k : Bytes) : hashSlotSpec k < 16384 :=
-  Nat.mod_lt _ (by decide)
+/-- every slot either implementation returns is in range -/
+theorem slots_in_range (k : Bytes) : keyToSlot k < 16384 ∧ clusterHash k < 16384 := by
+  rw [keyToSlot_eq_spec, clusterHash_eq_spec]
+  exact ⟨Nat.mod_lt _ (by decide), Nat.mod_lt _ (by decide)⟩
+
+/-! ### The specification in the property's own words
+
+`hashTagSpec` is a small program; the four theorems below say what it computes
+declaratively, and `hashTag_cases` shows that they cover every byte string:
+the bytes hashed are those between the FIRST `{` and the FIRST `}` after it when
+there is at least one byte between them, otherwise the whole key. -/
+
+theorem hashTagSpec_nobrace (k : Bytes) (h : lbrace ∉ k) : hashTagSpec k = k := by
+  simp [hashTagSpec, splitFirst_none lbrace k h]
+
+theorem hashTagSpec_noclose (pre rest : Bytes) (h1 : lbrace ∉ pre) (h2 : rbrace ∉ rest) :
+    hashTagSpec (pre ++ lbrace :: rest) = pre ++ lbrace :: rest := by
+  simp [hashTagSpec, splitFirst_at lbrace pre rest h1, splitFirst_none rbrace rest h2]
+
+theorem hashTagSpec_emptytag (pre post : Bytes) (h1 : lbrace ∉ pre) :
+    hashTagSpec (pre ++ lbrace :: rbrace :: post) = pre ++ lbrace :: rbrace :: post := by
+  have := splitFirst_at rbrace [] post (by simp)
+  simp only [List.nil_append] at this
+  simp [hashTagSpec, splitFirst_at lbrace pre (rbrace :: post) h1, this]
+
+theorem hashTagSpec_tag (pre tag post : Bytes) (h1 : lbrace ∉ pre) (h2 : rbrace ∉ tag) (h3 : tag ≠ []) :
+    hashTagSpec (pre ++ lbrace :: (tag ++ rbrace :: post)) = tag := by
+  simp [hashTagSpec, splitFirst_at lbrace pre _ h1, splitFirst_at rbrace tag post h2, h3]
+
+/-- every byte string falls under one of the four cases above -/
+theorem hashTag_cases (k : Bytes) :
+    lbrace ∉ k ∨
+    (∃ pre rest, k = pre ++ lbrace :: rest ∧ lbrace ∉ pre ∧ rbrace ∉ rest) ∨
+    (∃ pre post, k = pre ++ lbrace :: rbrace :: post ∧ lbrace ∉ pre) ∨
+    (∃ pre tag post, k = pre ++ lbrace :: (tag ++ rbrace :: post) ∧
+      lbrace ∉ pre ∧ rbrace ∉ tag ∧ tag ≠ []) := by
+  by_cases h : lbrace ∈ k
+  · right
+    obtain ⟨pre, rest, hk, hpre⟩ := List.eq_append_cons_of_mem h
+    by_cases h2 : rbrace ∈ rest
+    · right
+      obtain ⟨tag, post, hr, htag⟩ := List.eq_append_cons_of_mem h2
+      by_cases h3 : tag = []
+      · left; exact ⟨pre, post, by rw [hk, hr, h3]; rfl, hpre⟩
+      · right; exact ⟨pre, tag, post, by rw [hk, hr], hpre, htag, h3⟩
+    · left; exact ⟨pre, rest, hk, hpre, h2⟩
+  · left; exact h
+
+/-- hence, in the property's words, for the implementation: a key with a
+    non-empty first tag is hashed by that tag alone -/
+theorem keyToSlot_tag (pre tag post : Bytes) (h1 : lbrace ∉ pre) (h2 : rbrace ∉ tag) (h3 : tag ≠ []) :
+    keyToSlot (pre ++ lbrace :: (tag ++ rbrace :: post)) = (crc16Spec tag).toNat % 16384 ∧
+    clusterHash (pre ++ lbrace :: (tag ++ rbrace :: post)) = (crc16Spec tag).toNat % 16384 := by
+  rw [keyToSlot_eq_spec, clusterHash_eq_spec]
+  simp only [hashSlotSpec, hashTagSpec_tag pre tag post h1 h2 h3, and_self]
 
 /-! Non-vacuity / sanity: the spec on the classic check value and on the brace
     arrangements that distinguish "first {…}" from other readings. -/
